@@ -76,13 +76,17 @@ func autoDetectPacketSize(r io.Reader) (packetSize int, err error) {
 				return
 			}
 
-			// Rewind or sync reader
-			var n int64
-			if n, err = rewind(r); err != nil {
-				err = fmt.Errorf("astits: rewinding failed: %w", err)
-				return
-			} else if n == -1 {
-				var ls = packetSize - (l - packetSize)
+			// Give the bytes that have been looked at back to a reader that can seek: relatively to where it was handed over,
+			// which is not necessarily its start
+			if s, ok := r.(io.Seeker); ok {
+				if _, errSeek := s.Seek(-int64(n), io.SeekCurrent); errSeek == nil {
+					return
+				}
+				// A reader whose Seek fails (e.g. a file opened on a pipe) is read on like a reader that can't seek
+			}
+
+			// Sync reader: skip what's left of the second packet
+			if ls := 2*packetSize - n; ls > 0 {
 				if _, err = io.ReadFull(r, make([]byte, ls)); err != nil {
 					err = fmt.Errorf("astits: reading %d bytes to sync reader failed: %w", ls, err)
 					return
